@@ -54,3 +54,11 @@ inline int bidirectional_signed_dijkstra(const fake_frontier &other, int c, int 
 }
 }
 int use_c07() { parmcb::fake_frontier ff = {{0, 1, 2, 3}}; return parmcb::bidirectional_signed_dijkstra(ff, 1, 2) + ([] { positive::rgraph_t g(2); std::vector<bool> s(2); positive::visit_r07j(g, 0, s); return 0; })() + (int) positive::wrapped_reserve(std::vector<int>()) + (int) positive::reused_scratch(3) + (int) positive::dangling() + positive::dangling2("x") + positive::past_end(std::vector<int>()); }
+
+// R07k positive: infinity() of an integral type is 0
+#include <limits>
+template<class W> W c07_unreached() { return std::numeric_limits<W>::infinity(); }
+int c07_unreached_int() { return c07_unreached<int>(); }
+// R07l positive: division by a size that is zero for a forest
+#include <vector>
+std::size_t c07_grain(const std::vector<int> &cycles, const std::vector<int> &trees) { return cycles.size() / trees.size(); }
